@@ -98,4 +98,17 @@ theorem c10_parse_dispatch_lossless (inv : String → Obj → Bool) :
   obtain ⟨v, hv, hd⟩ := parse_dispatch (cfgOf_wf inv) p e.1 e.2 hok j hc hu
   exact ⟨v, hv, hd, by rw [hd]; exact (expected_preserves_and_adds_defaults (cfgOf_wf inv) _ j hc).1⟩
 
+/-! ## `complete_enum_value` (completions helper): exactly the matching values, in order -/
+
+/-- A value is suggested iff it is allowed and starts with what was typed (case-folded unless
+`case_sensitive`); the suggestions keep the order of the allowed list. -/
+theorem c10_complete_enum_exact (current : String) (allowed : List String) (cs : Bool) (v : String) :
+    (v ∈ completeEnum current allowed cs ↔
+      v ∈ allowed ∧ (if cs then v.startsWith current else v.toLower.startsWith current.toLower) = true)
+    ∧ (completeEnum current allowed cs).Sublist allowed := by
+  cases cs <;> simp [completeEnum, List.mem_filter, List.filter_sublist]
+
+example : (completeEnum "ap" ["Apple", "apricot", "Banana"] false).Sublist ["Apple", "apricot", "Banana"] :=
+  (c10_complete_enum_exact "ap" ["Apple", "apricot", "Banana"] false "apricot").2
+
 end Verif.Props.C10
